@@ -203,6 +203,42 @@ fn deep_twins(ctx: &mut Ctx) {
     }
 }
 
+/// the same function built in two NamedSymbol environments whose symbols agree in id but carry
+/// different names: the diagrams compare equal (symbols are identified by id), so they must
+/// hash equal as well — and unequal functions must compare unequal
+fn renamed_twins(ctx: &mut Ctx) {
+    use crate::conv::sym;
+    let ids = [2usize, 5, 9];
+    let a: Vec<rsbdd::NamedSymbol> = ["x", "y", "z"].iter().zip(ids).map(|(n, i)| sym(n, i)).collect();
+    let b: Vec<rsbdd::NamedSymbol> = ["p", "a_much_longer_name", "r'"].iter().zip(ids).map(|(n, i)| sym(n, i)).collect();
+    let (Ok(sa), Ok(sb)) = (Space::<rsbdd::NamedSymbol>::by_interning(&a), Space::<rsbdd::NamedSymbol>::by_interning(&b)) else { return };
+    for f in 0..256u64 {
+        if !ctx.mine(f) {
+            continue;
+        }
+        let case = json!({"part": "renamed-twins", "f": f});
+        ctx.begin_case(|| case.clone());
+        ctx.count("transitions", 1);
+        ctx.count("renamed_twin_functions", 1);
+        ctx.count("distinct_by_construction", 1);
+        let (da, db) = (sa.get(f), sb.get(f));
+        let mut c = vec![];
+        if *da != *db {
+            c.push("the two diagrams of the same function over symbols with equal ids compare unequal".to_string());
+        } else if da.get_hash() != db.get_hash() || crate::runner::fxhash(da.as_ref()) != crate::runner::fxhash(db.as_ref()) {
+            c.push("the two diagrams compare equal but hash differently".to_string());
+        }
+        for g in [f ^ 1, f ^ 0x80, !f & 0xff] {
+            if *da == *sb.get(g) {
+                c.push(format!("diagrams of the different functions {f:#x} and {g:#x} compare equal"));
+            }
+        }
+        if !c.is_empty() {
+            ctx.violation(format!("{TAG} twins with equal ids and different names: f={f:#x}"), c.join("; "), case);
+        }
+    }
+}
+
 fn check_routes(ctx: &mut Ctx, shared: &Space<usize>, tt: u64) {
     let case = json!({"part": "routes", "tt": tt});
     ctx.begin_case(|| case.clone());
@@ -371,6 +407,7 @@ fn run(ctx: &mut Ctx) {
         }
     }
     deep_twins(ctx);
+    renamed_twins(ctx);
     sweep_named_wide(ctx, ORACLE, TAG);
     // every shape of four-variable function against all of F_4, both operand positions
     reps4_sweep(ctx, ORACLE, TAG, if ctx.thorough() { &crate::refl::ALL_BINS } else { &[crate::refl::Bin::And, crate::refl::Bin::Or] });
@@ -405,6 +442,14 @@ fn replay(ctx: &mut Ctx, case: &Value) {
         }
         Some("eval-node") | Some("eval-init") => replay_eval(ctx, case, ORACLE, TAG),
         Some("family6") => replay_family6(ctx, case, ORACLE, TAG),
+        Some("renamed-twins") => {
+            let f = case["f"].as_u64().unwrap_or(0);
+            let mut c2 = Ctx::new("C02", ctx.tier, ctx.seed, f % 256, 256);
+            renamed_twins(&mut c2);
+            for v in c2.violations {
+                ctx.violation(v.key, v.what, v.replay);
+            }
+        }
         Some("deep-twins") => {
             let d = case["depth"].as_u64().unwrap_or(9);
             let mut c2 = Ctx::new("C02", ctx.tier, ctx.seed, d % 1024, 1024);
